@@ -360,8 +360,8 @@ class TaskScenario(ScenarioData):
             successor_earliest = self._getSuccessorEarliestStart(successor)
 
             # Parse maxgapduration
-            self._parse_duration(maxgap_str)
-            gap_hours = self._parse_duration(gap_str) if gap_str else 0
+            self._parse_duration(maxgap_str, calendar=True)
+            gap_hours = self._parse_duration(gap_str, calendar=True) if gap_str else 0
 
             # This task must end no more than maxgap_hours before successor can start
             # Required end time: successor_earliest - gap_hours (to satisfy gapduration)
@@ -499,7 +499,7 @@ class TaskScenario(ScenarioData):
                             # Add gap if specified
                             if gapduration:
                                 # gapduration is calendar time (e.g., "4h" = 4 hours)
-                                gap_hours = self._parse_duration(gapduration)
+                                gap_hours = self._parse_duration(gapduration, calendar=True)
                                 from datetime import timedelta
 
                                 dep_time = dep_time + timedelta(hours=gap_hours)
@@ -577,7 +577,7 @@ class TaskScenario(ScenarioData):
                             if pred_start:
                                 # Apply gapduration - A must end (gapduration) before B starts
                                 if gapduration:
-                                    gap_hours = self._parse_duration(gapduration)
+                                    gap_hours = self._parse_duration(gapduration, calendar=True)
                                     from datetime import timedelta
 
                                     pred_start = pred_start - timedelta(hours=gap_hours)
@@ -598,7 +598,7 @@ class TaskScenario(ScenarioData):
                             for dep in self._dependenciesOf(successor):
                                 if isinstance(dep, dict) and any(dep.get("task") is t for t in targets):
                                     if dep.get("gapduration") and not dep.get("onstart"):
-                                        gap_hours = max(gap_hours, self._parse_duration(dep.get("gapduration")))
+                                        gap_hours = max(gap_hours, self._parse_duration(dep.get("gapduration"), calendar=True))
                             if gap_hours:
                                 from datetime import timedelta
 
@@ -955,9 +955,13 @@ class TaskScenario(ScenarioData):
         end_time, _ = self._calculatePreciseEndTimeAndRelease(required_effort, effort_before_slot, forward)
         return end_time
 
-    def _parse_duration(self, duration_str: Any) -> float:
+    def _parse_duration(self, duration_str: Any, calendar: bool = False) -> float:
         """
         Parse a duration string like '4h', '2d', '1w', '30min' into hours.
+
+        Working-time durations (effort, gaplength) count 8h days and 40h weeks;
+        calendar durations (gapduration, maxgapduration) count 24h days and
+        7-day weeks.
         """
         if not duration_str:
             return 0
@@ -969,7 +973,10 @@ class TaskScenario(ScenarioData):
             return 0
         num = float(match.group(1))
         unit = match.group(2) or "h"
-        multipliers = {"min": 1 / 60, "h": 1, "d": 8, "w": 40, "m": 160, "y": 1920}
+        if calendar:
+            multipliers = {"min": 1 / 60, "h": 1, "d": 24, "w": 168, "m": 730, "y": 8760}
+        else:
+            multipliers = {"min": 1 / 60, "h": 1, "d": 8, "w": 40, "m": 160, "y": 1920}
         return num * multipliers.get(unit, 1)
 
     def isWorkingTime(self, slotIdx: int) -> bool:
